@@ -3,6 +3,7 @@
 #include "verif/driver.hpp"
 #include "verif/arrays.hpp"
 #include "nmtools/array/view/slice.hpp"
+#include "nmtools/array/view/mutable_slice.hpp"
 
 using namespace verif;
 namespace view = nmtools::view;
@@ -85,19 +86,31 @@ template <class S> static vj::value index_level(const index_target& t, const S& 
 template <class A, class S> static vj::value finish(const A& a, const S& slices) { return project(view::apply_slice(a, slices)); }
 template <class S> static vj::value finish(const index_target& t, const S& slices) { return index_level(t, slices); }
 
-template <class A, class... P> static vj::value leaf(const A& a, bool variadic, const P&... p) {
+// variadic: 0 = packed tuple through apply_slice, 1 = view::slice(a, parts...), 2 = view::mutable_slice(a, parts...) (the writable
+// front end must denote the same view; its write side is C20's business)
+template <class A, class... P> static vj::value leaf(const A& a, int variadic, const P&... p) {
     if constexpr (std::is_same_v<A, index_target>) return index_level(a, nmtools_tuple<P...>{p...});
     else {
+        if constexpr (sizeof...(P) >= 2) { if (variadic == 2) return project(view::mutable_slice(const_cast<A&>(a), p...)); }
         if (variadic) return project(view::slice(a, p...));
         return project(view::apply_slice(a, nmtools_tuple<P...>{p...}));
     }
 }
 
-template <class A> static vj::value run_packed(const A& a, const std::vector<part_t>& ps, bool variadic, bool pair) {
+template <class A, class P> static vj::value leaf_mut(const A& a, const P& p) {
+    if constexpr (std::is_same_v<A, index_target>) throw unsupported{};
+    else return project(view::mutable_slice(const_cast<A&>(a), p));
+}
+template <class A> static vj::value run_packed(const A& a, const std::vector<part_t>& ps, int variadic, bool pair) {
     if (ps.size() == 1) {
         const auto& t = ps[0];
+        if (variadic == 2 && t.k == 'i') return leaf_mut(a, (int)t.i);
+        if (variadic == 2 && t.k == 'e') return leaf_mut(a, Ellipsis);
         if (t.k == 'i') return leaf(a, variadic, (int)t.i);
         if (t.k == 'e') return leaf(a, variadic, Ellipsis);
+        // the writable front end with ONE range argument: only the all-integer triple is instantiated (the shape of call that a
+        // copy-deducing pack would silently turn into three integer indices; None patterns would not compile then: seed C05c)
+        if (variadic == 2) { if (!(t.hs && t.he && t.hp)) throw unsupported{}; return leaf_mut(a, nmtools_tuple<int, int, int>{(int)t.s, (int)t.e, (int)t.p}); }
         return with_slice_full(t, pair, [&](auto s0) { return leaf(a, variadic, s0); });
     }
     if (ps.size() == 2)
@@ -137,8 +150,8 @@ static vj::value handle(const vj::value& c) {
         index_target t; t.shape = shp;
         for (size_t q = 0; q < c["args"]["at"].size(); q++) t.at.push_back(c["args"]["at"][q].as_vec<long>());
         try {
-            if (enc == "packed") return run_packed(t, ps, false, false);
-            if (enc == "packed2") return run_packed(t, ps, false, true);
+            if (enc == "packed") return run_packed(t, ps, 0, false);
+            if (enc == "packed2") return run_packed(t, ps, 0, true);
             if (enc == "dyn") return run_dynamic(t, ps);
             if (enc == "dynarr") return run_dynamic_arr(t, ps);
         } catch (unsupported&) { return crash_res("driver:unsupported encoding for this case"); }
@@ -146,9 +159,10 @@ static vj::value handle(const vj::value& c) {
     }
     auto a = make_leaf<long>(shp, 0);
     try {
-        if (enc == "packed") return run_packed(a, ps, false, false);
-        if (enc == "packed2") return run_packed(a, ps, false, true);
-        if (enc == "variadic") return run_packed(a, ps, true, false);
+        if (enc == "packed") return run_packed(a, ps, 0, false);
+        if (enc == "packed2") return run_packed(a, ps, 0, true);
+        if (enc == "variadic") return run_packed(a, ps, 1, false);
+        if (enc == "mutable") return run_packed(a, ps, 2, false);
         if (enc == "dyn") return run_dynamic(a, ps);
         if (enc == "dynarr") return run_dynamic_arr(a, ps);
     } catch (unsupported&) { return crash_res("driver:unsupported encoding for this case"); }
